@@ -1,12 +1,18 @@
 //go:build verif
 
-// c10 drives the throttling flow checker of the real code in two modes and records request-level traces
-// (arrival, spacing entitlement, result, wait) that spec/Throttle_Trace.tla judges against property C10:
+// c10 drives the throttling flow checker of the real code in three modes and records request-level traces
+// (arrival, batch, threshold in force for the request, result, wait) that spec/Throttle_Trace.tla judges against
+// property C10:
 //
-//	mode "gate": k goroutines call flow.ThrottlingChecker.DoCheck concurrently; the goroutine gate forces
-//	             the schedule (sequence of "who moves next" / clock tick) at the th.* yield points
-//	mode "seq":  a throttling flow rule is loaded and requests arrive sequentially through api.Entry under
-//	             the virtual nanosecond clock; the wait is the Sleep the library asks for
+//	mode "gate": k goroutines call flow.ThrottlingChecker.DoCheck concurrently, each with its own batch and its own
+//	             threshold argument; the goroutine gate forces the schedule (sequence of "who moves next" / clock
+//	             tick) at the th.* yield points
+//	mode "seq":  a throttling flow rule is loaded and requests arrive sequentially through api.Entry under the
+//	             virtual nanosecond clock; the wait is the Sleep the library asks for.  strategy "direct": constant
+//	             threshold; strategy "mem": MemoryAdaptive rule, the memory usage published through
+//	             system_metric.SetSystemMemoryUsage before each request moves the effective threshold
+//	mode "chk":  sequential calls of DoCheck on one checker under the virtual nanosecond clock, every call with its
+//	             own threshold argument (what WarmUp / MemoryAdaptive calculators do to the checker)
 //
 // usage: c10 <scenarios.ndjson> <trace.ndjson>
 package main
@@ -19,6 +25,7 @@ import (
 	"github.com/alibaba/sentinel-golang/api"
 	"github.com/alibaba/sentinel-golang/core/base"
 	"github.com/alibaba/sentinel-golang/core/flow"
+	"github.com/alibaba/sentinel-golang/core/system_metric"
 
 	"verifharness/hx"
 )
@@ -37,21 +44,44 @@ func main() {
 	clk := hx.NewVClock(1e6)
 	clk.Install()
 	for _, s := range scn {
-		if hx.Str(s, "mode") == "seq" {
+		switch hx.Str(s, "mode") {
+		case "seq":
 			seq(s, tr, clk)
-		} else {
+		case "chk":
+			chk(s, tr, clk)
+		default:
 			gate(s, tr, clk)
 		}
 	}
 }
 
-// gate mode: times in ticks of 1 ms.  The checker has threshold 4 per 4 ms, so a batch of b is entitled to b ms.
+// gate mode: times in ticks of 1 ms.  The checker has a statistic interval of si ticks; caller i asks for bt[i] tokens
+// at threshold th[i] = n/d (scenarios keep bt*si*d/n a whole number of ticks).  Scenarios written before the threshold
+// became a per-request parameter carry "iv" only: threshold 4 per 4 ms, so a batch of b is entitled to b ms.
 func gate(s hx.M, tr *hx.Trace, clk *hx.VClock) {
 	const tick = int64(1e6)
 	maxq, last0 := hx.Int(s, "maxq"), hx.Int(s, "last0")
-	var iv []int64
-	for _, x := range s["iv"].([]interface{}) {
-		iv = append(iv, int64(x.(float64)))
+	si := int64(4)
+	var bt, tn, td []int64
+	if _, ok := s["bt"]; ok {
+		si = hx.Int(s, "si")
+		for _, x := range s["bt"].([]interface{}) {
+			bt = append(bt, int64(x.(float64)))
+		}
+		for _, x := range s["th"].([]interface{}) {
+			f := x.([]interface{})
+			tn = append(tn, int64(f[0].(float64)))
+			td = append(td, int64(f[1].(float64)))
+		}
+	} else {
+		for _, x := range s["iv"].([]interface{}) {
+			bt = append(bt, int64(x.(float64)))
+			tn = append(tn, 4)
+			td = append(td, 1)
+		}
+	}
+	if len(tn) != len(bt) || si <= 0 {
+		hx.Fatal("scenario %d: malformed gate scenario", hx.Int(s, "tr"))
 	}
 	var sched []int
 	for _, x := range s["sched"].([]interface{}) {
@@ -59,28 +89,28 @@ func gate(s hx.M, tr *hx.Trace, clk *hx.VClock) {
 	}
 	origin := int64(1000) * tick // relative time 0
 	clk.SetNs(origin + 1*tick)
-	chk := flow.NewThrottlingChecker(nil, uint32(maxq), 4)
+	chk := flow.NewThrottlingChecker(nil, uint32(maxq), uint32(si))
 	if last0 > 0 { // bring lastPassedTime to origin+last0: a request passing in the idle branch at that instant
 		clk.SetNs(origin + last0*tick)
-		if r := chk.DoCheck(nil, 1, 4); r != nil {
+		if r := chk.DoCheck(nil, 1, float64(si)); r != nil {
 			hx.Fatal("setup request did not pass")
 		}
 		clk.SetNs(origin + 1*tick)
 	}
-	tr.Emit(hx.M{"op": "new", "tr": hx.Int(s, "tr"), "maxq": maxq, "tol": 0})
-	if last0 > 0 { // the setup request is part of the history the property talks about
-		tr.Emit(hx.M{"op": "inv", "p": 64, "arr": last0, "iv": 1, "big": false})
+	tr.Emit(hx.M{"op": "new", "tr": hx.Int(s, "tr"), "maxq": maxq, "tol": 0, "si": si})
+	if last0 > 0 { // the setup request is part of the history the property talks about (1 token at threshold si: 1 tick)
+		tr.Emit(hx.M{"op": "inv", "p": 64, "arr": last0, "b": 1, "tn": si, "td": 1})
 		tr.Emit(hx.M{"op": "ret", "p": 64, "res": "pass", "w": 0})
 	}
 	sc := hx.NewSched()
 	sc.Filter = func(pt string) bool { return strings.HasPrefix(pt, "th.") }
 	var procs []*hx.Proc
-	for i := range iv {
+	for i := range bt {
 		i := i
 		procs = append(procs, sc.Spawn(func() {
 			arr := (clk.NowNs() - origin) / tick
-			tr.Emit(hx.M{"op": "inv", "p": i + 1, "arr": arr, "iv": iv[i], "big": false})
-			r := chk.DoCheck(nil, uint32(iv[i]), 4)
+			tr.Emit(hx.M{"op": "inv", "p": i + 1, "arr": arr, "b": bt[i], "tn": tn[i], "td": td[i]})
+			r := chk.DoCheck(nil, uint32(bt[i]), float64(tn[i])/float64(td[i]))
 			emitRet(tr, i+1, r, tick)
 		}))
 	}
@@ -132,23 +162,44 @@ func emitRet(tr *hx.Trace, p int, r *base.TokenResult, unit int64) {
 func seq(s hx.M, tr *hx.Trace, clk *hx.VClock) {
 	trn := hx.Int(s, "tr")
 	res := fmt.Sprintf("c10_%d", trn)
-	thrNum, thrDen := hx.Int(s, "thr_num"), hx.Int(s, "thr_den")
 	intervalMs, maxqMs := hx.Int(s, "interval_ms"), hx.Int(s, "maxq_ms")
+	mem := hx.Str(s, "strategy") == "mem"
 	origin := hx.BaseMs(10000) * 1e6
 	clk.SetNs(origin)
-	_, err := flow.LoadRulesOfResource(res, []*flow.Rule{{Resource: res, TokenCalculateStrategy: flow.Direct, ControlBehavior: flow.Throttling,
-		Threshold: float64(thrNum) / float64(thrDen), StatIntervalInMs: uint32(intervalMs), MaxQueueingTimeMs: uint32(maxqMs)}})
-	if err != nil {
+	rule := &flow.Rule{Resource: res, ControlBehavior: flow.Throttling, StatIntervalInMs: uint32(intervalMs), MaxQueueingTimeMs: uint32(maxqMs)}
+	newEv := hx.M{"op": "new", "tr": trn, "maxq": maxqMs * 1e6, "tol": 1, "si": intervalMs * 1e6}
+	var thrNum, thrDen int64
+	if mem {
+		rule.TokenCalculateStrategy = flow.MemoryAdaptive
+		rule.LowMemUsageThreshold, rule.HighMemUsageThreshold = hx.Int(s, "low"), hx.Int(s, "high")
+		rule.MemLowWaterMarkBytes, rule.MemHighWaterMarkBytes = hx.Int(s, "lwm"), hx.Int(s, "hwm")
+		newEv["rule"] = hx.M{"low": rule.LowMemUsageThreshold, "high": rule.HighMemUsageThreshold,
+			"lwm": rule.MemLowWaterMarkBytes, "hwm": rule.MemHighWaterMarkBytes}
+	} else {
+		thrNum, thrDen = hx.Int(s, "thr_num"), hx.Int(s, "thr_den")
+		rule.TokenCalculateStrategy = flow.Direct
+		rule.Threshold = float64(thrNum) / float64(thrDen)
+	}
+	if _, err := flow.LoadRulesOfResource(res, []*flow.Rule{rule}); err != nil {
 		hx.Fatal("load rule: %v", err)
 	}
-	tr.Emit(hx.M{"op": "new", "tr": trn, "maxq": maxqMs * 1e6, "tol": 1})
+	if len(flow.GetRulesOfResource(res)) != 1 {
+		hx.Fatal("scenario %d: rule was not accepted", trn)
+	}
+	tr.Emit(newEv)
 	for i, x := range s["reqs"].([]interface{}) {
 		q := x.(map[string]interface{})
 		clk.AdvanceNs(hx.Int(q, "gap"))
 		clk.TakeSleeps()
 		arr := clk.NowNs() - origin
-		tr.Emit(hx.M{"op": "inv", "p": i + 1, "arr": arr, "iv": hx.Int(q, "iv"), "big": q["big"] == true})
-		e, b := api.Entry(res, api.WithBatchCount(uint32(hx.Int(q, "batch"))))
+		batch := hx.Int(q, "batch")
+		if mem {
+			system_metric.SetSystemMemoryUsage(hx.Int(q, "mem"))
+			tr.Emit(hx.M{"op": "inv", "p": i + 1, "arr": arr, "b": batch, "mem": hx.Int(q, "mem")})
+		} else {
+			tr.Emit(hx.M{"op": "inv", "p": i + 1, "arr": arr, "b": batch, "tn": thrNum, "td": thrDen})
+		}
+		e, b := api.Entry(res, api.WithBatchCount(uint32(batch)))
 		var w int64
 		for _, d := range clk.TakeSleeps() {
 			w += d
@@ -162,4 +213,38 @@ func seq(s hx.M, tr *hx.Trace, clk *hx.VClock) {
 	}
 	tr.Emit(hx.M{"op": "end"})
 	_, _ = flow.LoadRulesOfResource(res, nil)
+}
+
+// chk mode: sequential DoCheck calls on one checker, each with its own threshold argument; times in nanoseconds
+// relative to the scenario origin.  With "sleep" the caller honours the wait it is given before the next one arrives,
+// otherwise the next caller arrives gap ns after the previous arrival (requests of independent callers).
+func chk(s hx.M, tr *hx.Trace, clk *hx.VClock) {
+	trn := hx.Int(s, "tr")
+	intervalMs, maxqMs := hx.Int(s, "interval_ms"), hx.Int(s, "maxq_ms")
+	sleep := s["sleep"] == true
+	origin := int64(1e12)
+	clk.SetNs(origin)
+	c := flow.NewThrottlingChecker(nil, uint32(maxqMs), uint32(intervalMs))
+	tr.Emit(hx.M{"op": "new", "tr": trn, "maxq": maxqMs * 1e6, "tol": 1, "si": intervalMs * 1e6})
+	for i, x := range s["reqs"].([]interface{}) {
+		q := x.(map[string]interface{})
+		clk.AdvanceNs(hx.Int(q, "gap"))
+		arr := clk.NowNs() - origin
+		b, n, d := hx.Int(q, "batch"), hx.Int(q, "tn"), hx.Int(q, "td")
+		tr.Emit(hx.M{"op": "inv", "p": i + 1, "arr": arr, "b": b, "tn": n, "td": d})
+		r := c.DoCheck(nil, uint32(b), float64(n)/float64(d))
+		switch {
+		case r == nil || r.IsPass():
+			tr.Emit(hx.M{"op": "ret", "p": i + 1, "res": "pass", "w": 0})
+		case r.IsBlocked():
+			tr.Emit(hx.M{"op": "ret", "p": i + 1, "res": "reject", "w": 0})
+		default:
+			w := int64(r.NanosToWait())
+			tr.Emit(hx.M{"op": "ret", "p": i + 1, "res": "pass", "w": w})
+			if sleep {
+				clk.AdvanceNs(w)
+			}
+		}
+	}
+	tr.Emit(hx.M{"op": "end"})
 }
